@@ -276,6 +276,14 @@ theorem self_ops_refused {m : M} (h : Reachable m) (r : Nat) (hr : r ∈ m.stack
   have hrun := ((reachable_inv h).running r).2 hr
   rcases ho with rfl | rfl | rfl <;> simp [M.applyRop, hrun]
 
+/-- `reset()` from outside on a routine that is pending on ANY clock leaves its wake-up in the scheduler (only
+    `_clock` goes back to the default): at that wake-up `next` finds the routine `Init` and restarts the body
+    from the top (`transition_table_next_entry`), whichever clock delivers it. -/
+theorem reset_keeps_pending_wakeup (m : M) (r : Nat) (h : (m.rt r).state ≠ .running) :
+    (m.applyRop r .reset).1.queue = m.queue ∧ ((m.applyRop r .reset).1.rt r).state = .init ∧
+    ((m.applyRop r .reset).1.rt r).pc = none ∧ (m.applyRop r .reset).1.clk r = false := by
+  simp [M.applyRop, h, M.setClk]
+
 /-- … and so is `next()` (repair D-C11-1): it raises and changes nothing. -/
 theorem reentrant_next_refused {m : M} (h : Reachable m) (r : Nat) (hr : r ∈ m.stack) (v : Val) :
     m.callNext r v = { m with pending := some (.exc .routine) } := by
@@ -296,11 +304,14 @@ theorem cond_signal_false_is_noop (m : M) (c : Nat) (h : (m.conds c).test = fals
   simp [M.signal, h]
 
 /-- `signal()` with a true test (and `unhang()` always): afterwards every routine that was parked
-    on the condition has exactly ONE pending wake-up, at the signaller's logical time; nobody
-    else's wake-ups changed; the waiting list is empty — so a second signal schedules nothing. -/
+    on the condition has exactly ONE pending wake-up on its own clock (`keyOf` = routine + `_clock`), at the
+    signaller's logical time; no other wake-up changed; the waiting list is empty — so a second signal
+    schedules nothing. -/
 theorem cond_resumes_once_after_true_signal (m : M) (c : Nat) (h : (m.conds c).test = true) :
-    (∀ r ∈ (m.conds c).waiting, entriesOf r (m.signal c).queue = [(m.secsOf m.cur, r)]) ∧
-    (∀ r, r ∉ (m.conds c).waiting → (entriesOf r (m.signal c).queue).Perm (entriesOf r m.queue)) ∧
+    (∀ r ∈ (m.conds c).waiting,
+        entriesOf (m.keyOf r) (m.signal c).queue = [(m.secsOf m.cur, m.keyOf r)]) ∧
+    (∀ k, (∀ a ∈ (m.conds c).waiting, k ≠ m.keyOf a) →
+        (entriesOf k (m.signal c).queue).Perm (entriesOf k m.queue)) ∧
     ((m.signal c).conds c).waiting = [] ∧ ((m.signal c).conds c).test = true ∧
     (∀ i, i ≠ c → (m.signal c).conds i = m.conds i) ∧
     ((m.signal c).signal c).queue = (m.signal c).queue := by
@@ -311,7 +322,9 @@ theorem cond_resumes_once_after_true_signal (m : M) (c : Nat) (h : (m.conds c).t
   have hsecs : (m.setCond c { m.conds c with waiting := [] }).secsOf
       (m.setCond c { m.conds c with waiting := [] }).cur = m.secsOf m.cur := by
     simp only [setCond_cur]; cases m.cur <;> rfl
+  have hkey : ∀ r, (m.setCond c { m.conds c with waiting := [] }).keyOf r = m.keyOf r := fun _ => rfl
   rw [hsecs] at hq
+  simp only [hkey] at hq
   refine ⟨by rw [hsig]; exact hq.1, by rw [hsig]; exact hq.2, by rw [hsig]; exact hw,
     by rw [hsig]; exact ht, ?_, ?_⟩
   · intro i hi; rw [hsig]; simp [releaseCond_conds, hi]
@@ -356,10 +369,10 @@ theorem cond_wait_true_continues {m : M} {top : Nat} {rest : List Nat}
 /-- What the scheduler does with what `__awake__` returned: rescheduled (at the scheduled
     time plus the delta) iff the value is a number; `'hang'`, `None`, booleans and every
     exception leave the queue alone. -/
-theorem tick_reschedules_iff_number (m : M) (t : Int) (r : Nat) (res : Res) :
-    (m.finishTick t r res).queue =
+theorem tick_reschedules_iff_number (m : M) (t : Int) (key : Nat) (res : Res) :
+    (m.finishTick t key res).queue =
       match res with
-      | .val (.num d) => enqueue (t + d, r) m.queue
+      | .val (.num d) => enqueue (t + d, key) m.queue
       | _ => m.queue := by
   unfold M.finishTick
   split <;> simp
